@@ -2,7 +2,7 @@ from .base import *
 
 ID = 'C03'
 THEOREMS = ['C03_spellings', 'C03_add_comm', 'C03_add_canon_carry', 'C03_add_zero_r', 'C03_add_zero_l',
-            'C03_add_total']
+            'C03_add_total', 'C03_add_assoc']
 OWNED = {'AAdd', 'AMul', 'ARotate'}
 RULE = ('pairs/triples of canonical angles: remainders from threshold classes (0, 1e-15, 1e-10, pi/2-1e-10, pi/2-1e-15 at -3..+3 ulps), '
         'pair sums steered onto pi/2 +- {ulps, 1e-15, 1e-10}, exact fractions of a quarter turn, arbitrary; blades 0..8, 1000.., 10^6, 2^31+-1, 2^32+2, 2^40, random < 2^40; '
